@@ -11,7 +11,7 @@
                     vrel / orel (closures: same parameters and body, every name the body can use
                     resolves to related values, the reference may capture more). *)
 From P2 Require Import Base.Prelude Sem.Num Sem.Syntax Sem.Ops Sem.Lib Sem.Ref Sem.Gen Sem.Sim
-     Sem.SimExamples Sem.RelProofs Sem.OpsProofs Sem.LibProofs Sem.GenProofs.
+     Sem.SimExamples Sem.Pinned Sem.RelProofs Sem.OpsProofs Sem.LibProofs Sem.GenProofs Sem.PinnedProofs.
 
 (* T1: for every fuel, program, frame and storage - lock-step simulation (same fuel on both sides,
    out-of-fuel only related to out-of-fuel), and nothing below the top of the frame is disturbed *)
@@ -73,6 +73,20 @@ Theorem call_frame_independent : forall known fuel ps b c1 c2 s1 s2 vs1 vs2 stk 
   same_below (base + length ps) stk
              (snd (g_call (exec known fuel) (VClo ps b c2 s2) (length ps) stk base)).
 Proof. exact call_frame_independent_lemma. Qed.
+
+(* the theorem discriminates: the call-site discipline of the pinned commit (Sem/Pinned.v: the same
+   step function with the reserved slots removed from the compilation of call arguments - finding F1,
+   repaired in the repo by "fix: locals created inside call arguments no longer overwrite pending
+   arguments") violates the statement of exec_sim on (\(a,b). b)(x, let y = x+1 in y), x = 5:
+   reference 6, repaired model 6, pinned discipline 5 *)
+Theorem exec_sim_pinned_refuted :
+  exists a env am cm st offs size cs,
+    frame_ok am cm st offs size cs env /\ wf am cm a /\
+    eval [] 10 env a = Ok (VInt 6) /\
+    fst (exec [] 10 am cm st offs size cs a) = Ok (VInt 6) /\
+    fst (exec_pinned [] 10 am cm st offs size cs a) = Ok (VInt 5) /\
+    ~ orel (eval [] 10 env a) (fst (exec_pinned [] 10 am cm st offs size cs a)).
+Proof. exact exec_sim_pinned_refuted_lemma. Qed.
 
 (* operators and built-ins are shared by both semantics and never look inside a closure *)
 Theorem calc_respects_vrel : forall op a a' b b',
@@ -138,6 +152,7 @@ Print Assumptions C01_from_ast_fo.
 Print Assumptions C01_first_order_result_exact.
 Print Assumptions C01_outcome.
 Print Assumptions call_frame_independent.
+Print Assumptions exec_sim_pinned_refuted.
 Print Assumptions calc_respects_vrel.
 Print Assumptions run_static_respects_vrel.
 Print Assumptions run_method_respects_vrel.
